@@ -14,9 +14,9 @@ class complex:
 
     def __mul__(self, other: Union[int, float, complex]) -> complex: pass
 
-    def __div__(self, other: Union[int, float, complex]) -> complex: pass
+    def __truediv__(self, other: Union[int, float, complex]) -> complex: pass
 
-    def __neg__(self) -> float: pass
+    def __neg__(self) -> complex: pass
 
     def __pow__(self, power: Union[int, float, complex], modulo=None) -> complex: pass
 
